@@ -156,7 +156,7 @@ def run(ctx, only=None):
         for f in obs['failures']:
             ctx.violation(f'{f["cell"]}|{f["variant"]}|{f["kind"]}|{tr}', f'{f["cell"]} {f["variant"]} ({tr}): {f["kind"]}: {f["detail"]}',
                           dict(transport=tr, cells=[f['cell']]))
-    if not only and ran < 500:
+    if not only and ran < 500 and not ctx.violations:
         raise HarnessError(f'C14 exploration collapsed: {ran} sample functions executed')
     ctx.extra['bound'] = '7 calling forms x 33 kits x 3 transports, sync + async samples'
     ctx.assume('samples run unmodified with google.auth.default and create_channel patched; replies are default messages '
